@@ -282,7 +282,7 @@ func c13(c *Ctx) {
 	c.NontrivialN(evals * int64(len(lists)-len(ranges)) / int64(len(lists)))
 	c.Sample(cases[len(cases)/3])
 	// ---- ChunkReader
-	files := []rfile{{[]int{3, 1, 2}, true}, {[]int{2, 0, 3}, true}, {[]int{1, 2, 0}, true}, {[]int{3, 1, 2}, false}, {[]int{2, 0, 3}, false}, {[]int{1, 2, 0}, false}, {[]int{2, 4}, true}, {[]int{1, 1, 4}, false}}
+	files := []rfile{{lens: []int{3, 1, 2}, marker: true}, {lens: []int{2, 0, 3}, marker: true}, {lens: []int{1, 2, 0}, marker: true}, {lens: []int{3, 1, 2}, marker: false}, {lens: []int{2, 0, 3}, marker: false}, {lens: []int{1, 2, 0}, marker: false}, {lens: []int{2, 4}, marker: true}, {lens: []int{1, 1, 4}, marker: false}}
 	var crn, crnt int64
 	for _, rf := range files {
 		f := rdr.MakeFile(rf.name(), rf.lens, rf.marker)
